@@ -10,6 +10,9 @@ use serde::{Deserialize, Serialize};
 pub struct Case {
     pub world: World,
     pub ty: Ty,
+    /// 0 = RenderLevel::Documentation (full detail), 1 = RenderLevel::Detailed (what hovers use; smaller size limits)
+    #[serde(default)]
+    pub level: u8,
 }
 
 pub struct C17;
@@ -23,7 +26,7 @@ pub enum Outcome {
 }
 
 /// one round trip: annotation text -> type A -> rendering s -> type B; A and B must agree
-pub fn round_trip(world: &World, ty: &Ty) -> Outcome {
+pub fn round_trip(world: &World, ty: &Ty, level: u8) -> Outcome {
     let text = world.render(ty);
     let (mut ws, _) = tyws::workspace(world);
     let (fa, a) = match tyws::materialise(&mut ws, "a.lua", std::slice::from_ref(&text)) {
@@ -35,14 +38,13 @@ pub fn round_trip(world: &World, ty: &Ty) -> Outcome {
         return Outcome::GenSyntax(e.clone());
     }
     {
-        let ca = tyws::canon(tyws::db(&ws), &a);
-        if ca != "Unknown" && ca.contains("Unknown") {
+        if !matches!(a, emmylua_code_analysis::LuaType::Unknown) && tyws::mentions_unknown(tyws::db(&ws), &a) {
             // `unknown` inside a composite (e.g. `unknown|nil`): the annotation grammar itself collapses `unknown?` /
             // `unknown[]` to `unknown`, so such a type has no faithful annotation spelling
             return Outcome::Skip("unknown-inside");
         }
     }
-    let s = humanize_type(tyws::db(&ws), &a, RenderLevel::Documentation);
+    let s = humanize_type(tyws::db(&ws), &a, if level == 0 { RenderLevel::Documentation } else { RenderLevel::Detailed });
     if outside_strings(&s).contains("...") {
         return Outcome::Skip("truncated");
     }
@@ -56,7 +58,7 @@ pub fn round_trip(world: &World, ty: &Ty) -> Outcome {
     };
     let errs = tyws::syntax_errors(&ws, fb);
     // aliases are transparent: `A?` is stored with the alias expanded while `A|nil` keeps the reference
-    let o = tyws::CanonOpts { expand_aliases: true, merge_const_kinds: false };
+    let o = tyws::CanonOpts { expand_aliases: true, merge_const_kinds: false, ..Default::default() };
     let ca = tyws::canon_with(tyws::db(&ws), &a, &o);
     let cb = tyws::canon_with(tyws::db(&ws), &b, &o);
     if !errs.is_empty() {
@@ -120,6 +122,7 @@ fn node_sig(t: &Ty) -> String {
         Ty::Array(x) if matches!(&**x, Ty::Int(v) if v.starts_with('-')) => "array(negative-int)".to_string(),
         Ty::Str(v, _) => format!("str[{}]", str_class(v)),
         Ty::Int(_) => "int".to_string(),
+        Ty::Record(fs) if fs.iter().any(|f| matches!(&f.key, dt::Key::Str(k) if !is_identifier(k))) => "record[non-identifier-key]".to_string(),
         _ => {
             // constructor with the kinds of its children (prims by kind only)
             let mut inner: Vec<&'static str> = dt::children(t).into_iter().map(dt::kind).collect();
@@ -133,13 +136,18 @@ fn node_sig(t: &Ty) -> String {
 }
 
 /// the smallest sub-term that still fails on its own
-fn minimal_failing<'a>(world: &World, t: &'a Ty) -> &'a Ty {
+fn minimal_failing<'a>(world: &World, t: &'a Ty, level: u8) -> &'a Ty {
     for c in dt::children(t) {
-        if matches!(round_trip(world, c), Outcome::Fail { .. }) {
-            return minimal_failing(world, c);
+        if matches!(round_trip(world, c, level), Outcome::Fail { .. }) {
+            return minimal_failing(world, c, level);
         }
     }
     t
+}
+
+fn is_identifier(k: &str) -> bool {
+    let mut cs = k.chars();
+    matches!(cs.next(), Some(c) if c.is_ascii_alphabetic() || c == '_') && cs.all(|c| c.is_ascii_alphanumeric() || c == '_')
 }
 
 fn needs_escape(v: &str) -> bool {
@@ -153,7 +161,7 @@ impl Property for C17 {
         "C17"
     }
     fn rule(&self) -> String {
-        "case = generated prelude (classes with inheritance, aliases, enums) + one type from the sub-grammar {primitives, string/integer/boolean literals, unions, optionals, arrays, table<K,V>, records with optional fields, class/alias/enum references}, arity bounded per nesting depth by the renderer's limits; A = type of `---@type <text>`, s = humanize_type(A, Documentation), B = type of `---@type <s>`; judged: s parses without syntax errors and canon(A) == canon(B) (unions flattened, members sorted); renderings containing `...` (size limit) or a newline (expanded struct view) are excluded and counted. non-trivial = the type has an array or optional whose element is a union/optional, or a string literal needing escapes, or a negative/huge integer literal".into()
+        "case = generated prelude (classes with inheritance, aliases, enums) + one type from the sub-grammar {primitives, string/integer/boolean literals, unions, optionals, arrays, table<K,V>, records with optional fields, class/alias/enum references}, arity bounded per nesting depth by the renderer's limits; A = type of `---@type <text>`, s = humanize_type(A, Documentation) (3/4 of the cases) or humanize_type(A, Detailed) (1/4), B = type of `---@type <s>`; judged: s parses without syntax errors and canon(A) == canon(B) (unions flattened, members sorted); renderings containing `...` (size limit) or a newline (expanded struct view) are excluded and counted. non-trivial = the type has an array or optional whose element is a union/optional, or a string literal needing escapes, or a negative/huge integer literal".into()
     }
     fn assumptions(&self) -> Vec<String> {
         vec!["canonical comparison ignores union member order and duplicate members, record field order, and the identity of the table constant a bare `---@type table` produces; alias references are compared by their expansion (the analyzer itself stores `A?` expanded and `A|nil` unexpanded)".into()]
@@ -162,7 +170,7 @@ impl Property for C17 {
         tier.pick(40_000, 3_000_000)
     }
     fn strategy(&self, _tier: Tier) -> BoxedStrategy<Case> {
-        (dt::world(), dt::ty(Profile::renderable())).prop_map(|(world, ty)| Case { world, ty }).boxed()
+        (dt::world(), dt::ty(Profile::renderable()), prop_oneof![3 => Just(0u8), 1 => Just(1u8)]).prop_map(|(world, ty, level)| Case { world, ty, level }).boxed()
     }
     fn local(&self) {}
     fn fixed_cases(&self, _tier: Tier) -> Vec<Case> {
@@ -187,7 +195,7 @@ impl Property for C17 {
             Ty::Map(b(Ty::Prim(0)), b(Ty::Opt(b(Ty::Union(vec![Ty::Class(0), Ty::Enum(0)]))))),
         ]
         .into_iter()
-        .map(|ty| Case { world: w.clone(), ty })
+        .map(|ty| Case { world: w.clone(), ty, level: 0 })
         .collect()
     }
     fn simplify(&self, c: &Case) -> Vec<Case> {
@@ -202,12 +210,12 @@ impl Property for C17 {
         let mut ss = vec![];
         subs(&c.ty, &mut ss);
         for s in ss {
-            out.push(Case { world: c.world.clone(), ty: s.clone() });
+            out.push(Case { world: c.world.clone(), ty: s.clone(), level: c.level });
         }
         let mut w = c.world.clone();
         if w.classes.len() > 1 {
             w.classes.truncate(1);
-            out.push(Case { world: w.clone(), ty: c.ty.clone() });
+            out.push(Case { world: w.clone(), ty: c.ty.clone(), level: c.level });
         }
         for cl in w.classes.iter_mut() {
             cl.fields.clear();
@@ -218,7 +226,7 @@ impl Property for C17 {
         w.aliases.truncate(1);
         w.enums.truncate(1);
         if w != c.world {
-            out.push(Case { world: w, ty: c.ty.clone() });
+            out.push(Case { world: w, ty: c.ty.clone(), level: c.level });
         }
         out
     }
@@ -235,10 +243,12 @@ impl Property for C17 {
         obs.class_if(opt_of_u, "optional-of-union/optional");
         obs.class_if(esc, "string-needing-escape");
         obs.class_if(oddint, "negative/huge-integer");
+        obs.class_if(dt::any_node(t, &|n| matches!(n, Ty::Record(fs) if fs.iter().any(|f| matches!(&f.key, dt::Key::Str(k) if !is_identifier(k))))), "record-with-non-identifier-key");
         for k in ["record", "map", "class", "alias", "enum", "bool", "str", "int"] {
             obs.class_if(dt::any_node(t, &|n| dt::kind(n) == k), &format!("has:{k}"));
         }
-        let r = match catch(|| round_trip(&c.world, t)) {
+        obs.class(if c.level == 0 { "level:Documentation" } else { "level:Detailed" });
+        let r = match catch(|| round_trip(&c.world, t, c.level)) {
             Ok(r) => r,
             Err(p) => return Verdict::Skip(format!("excluded.panic(C12):{}", panic_site(&p))),
         };
@@ -258,12 +268,18 @@ impl Property for C17 {
                 Verdict::pass(arr_of_u || opt_of_u || esc || oddint)
             }
             Outcome::Fail { what, msg } => {
-                let m = minimal_failing(&c.world, t);
-                let (what2, msg2) = match round_trip(&c.world, m) {
+                let m = minimal_failing(&c.world, t, c.level);
+                let (what2, msg2) = match round_trip(&c.world, m, c.level) {
                     Outcome::Fail { what, msg } => (what, msg),
                     _ => (what, msg.clone()),
                 };
-                Verdict::fail(format!("rt-{what2}:{}", node_sig(m)), format!("{msg2}  [whole case: {}]", one_line(&msg, 600)))
+                let mut ns = node_sig(m);
+                if dt::any_node(m, &|n| node_sig(n) == "record[non-identifier-key]") {
+                    ns = "record[non-identifier-key]".to_string();
+                }
+                // a bare non-identifier key either fails to parse or parses as something else: one root cause
+                let sig = if ns == "record[non-identifier-key]" { format!("rt:{ns}") } else { format!("rt-{what2}:{ns}") };
+                Verdict::fail(sig, format!("{msg2}  [whole case: {}]", one_line(&msg, 600)))
             }
         }
     }
